@@ -26,8 +26,24 @@ stake by less than `T/S` per top-up and by at most one token per force-undelegat
 `burn_moves_other_stake`), so after the loop `|stake − e| < ½ + 10⁻¹⁸ + n·ρ + N`, `N` = number of accounts of the
 validator that lost shares in this loop (the oracle's "one token per force-undelegation on the validator"), `n` = number
 of accounts, `ρ` ≥ the validator's tokens per raw share during the loop (10⁻¹⁸ at rate one: the oracle's 10⁻⁶ allowance).
+
+# 2. Refinement
+`absL s` is the state of Model/Superfluid.lean (staking = a ledger at exchange rate one) that a state `s` of
+Model/SuperfluidStaking.lean stands for: the lockup / marker / bank part as it is, the ledger entry of an account = its
+delegation's raw shares / 10¹⁸.  `ROs` is the refinement invariant (every validator at rate one, `shares = tokens·10¹⁸`;
+every delegation a positive whole number of tokens; the share invariant; the known validators' tokens within the bank
+supply, the supply at most 2¹²⁷).  `rate_one_refinement_call`: every call of the staking model corresponds to the same
+call of the ledger model on `absL s` — both succeed, with `absL`-related states satisfying the invariant again and the
+same returned lock id, or both fail; `rate_one_refinement`: hence `absL (runS s₀ ops) = run (absL s₀) ops` along every
+slash-free history (a forward simulation that is a function, so also a backward one).  `rate_one_transfer`: every
+statement about the ledger model's reachable states — the 28 theorems of the first part of Props/C11.lean — holds of
+`absL` of the staking model's reachable states; spelled out for `refresh_sets_expected` and the drift bound.
+Side condition `FitsAlong`: the amounts minted fit under 2¹²⁷ together with the supply (the ledger model has no 256-bit
+range checks; `rate_one_refinement_needs_room_witness`: without room the staking model's `Delegate` overflows where the
+ledger model succeeds).
 -/
 import OsmoVerif.Proofs.SuperfluidRefreshEpoch
+import OsmoVerif.Proofs.SuperfluidRefineRun
 import OsmoVerif.Props.C11
 
 namespace OsmoVerif.Props.C11Refresh
@@ -251,5 +267,141 @@ theorem refresh_burn_rejected_unbounded_witness :
 /-- the rejected branch of `refresh_general_bound` is met there. -/
 example : BurnRejected wBig (0, 0) 0 :=
   ⟨715 * P18 + P18 / 2, 1003, by decide +kernel, by decide +kernel, by decide, by decide +kernel⟩
+
+
+/-! ## 2. the staking model refines the rate-one ledger model -/
+
+/-- **every call corresponds** (forward and backward): from a state with the refinement invariant `ROs` and the lockup
+invariant, with room for what the call mints (`Fits`), the call of the staking model and the same call of the ledger
+model on the abstracted state either both succeed — the new ledger state is `absL` of the new staking state, which
+satisfies `ROs` again, and the returned lock ids agree — or both fail. -/
+theorem rate_one_refinement_call {s : SState} {op : Op} (hR : ROs s) (hI : Inv s.b) (hfit : Fits (absL s) op) :
+    (∃ s' l' id, applyOpIdS s (.base op) = .ok (s', id) ∧ applyOpId (absL s) op = .ok (l', id) ∧ l' = absL s' ∧ ROs s') ∨
+    ((∃ e, applyOpIdS s (.base op) = .error e) ∧ ∃ e', applyOpId (absL s) op = .error e') := by
+  have h := applyOpIdS_sim hR hI hfit
+  cases hs : applyOpIdS s (.base op) with
+  | error e =>
+    cases hl : applyOpId (absL s) op with
+    | error e' => exact Or.inr ⟨⟨e, rfl⟩, ⟨e', rfl⟩⟩
+    | ok r' => rw [hs, hl] at h; exact h.elim
+  | ok r =>
+    cases hl : applyOpId (absL s) op with
+    | error e' => rw [hs, hl] at h; exact h.elim
+    | ok r' =>
+      rw [hs, hl] at h
+      obtain ⟨⟨h1, h2⟩, h3⟩ := h
+      refine Or.inl ⟨r.1, r'.1, r.2, rfl, ?_, h1, h2⟩
+      rw [h3]
+
+/-- **`rate_one_refinement`** — along every slash-free history from a state with the refinement invariant, with room
+(`FitsAlong`, evaluated on the ledger model's run): the ledger model's run from the abstracted state IS the abstraction
+of the staking model's run (a failed call is a no-op in both), and the invariant holds at the end. -/
+theorem rate_one_refinement {s₀ : SState} (hR : ROs s₀) (hI : Inv s₀.b) (ops : List Op) (hfit : FitsAlong (absL s₀) ops) :
+    absL (runS s₀ (ops.map OpS.base)) = run (absL s₀) ops ∧ ROs (runS s₀ (ops.map OpS.base)) :=
+  runS_sim ops s₀ hR hI hfit
+
+/-- **corollary: the theorems of the first part transfer.**  Whatever holds of every state the ledger model reaches from
+`absL s₀` holds of `absL` of every state the staking model reaches from `s₀` (at exchange rate one, without slashes,
+with room); `Inv (absL s₀)` is `Inv s₀.b`. -/
+theorem rate_one_transfer {s₀ : SState} (hR : ROs s₀) (hI : Inv s₀.b) (P : List Op → State → Prop)
+    (hP : Inv (absL s₀) → ∀ ops, P ops (run (absL s₀) ops)) (ops : List Op) (hfit : FitsAlong (absL s₀) ops) :
+    P ops (absL (runS s₀ (ops.map OpS.base))) := by
+  rw [(rate_one_refinement hR hI ops hfit).1]
+  exact hP (inv_absL hI) ops
+
+/-- transferred `refresh_sets_expected`: at exchange rate one the epoch of the STAKING model sets every intermediary
+account's delegation to exactly `expected · 10¹⁸` raw shares — its exact stake is the expected amount. -/
+theorem refresh_sets_expected_staking {s s' : SState} {ups : List (Nat × Int × Int × Bool)} (hR : ROs s) (hI : Inv s.b)
+    (hfit : FitsEpoch (absL s) ups) (hc : epochS s ups = .ok s') (hfull : ∃ b1, updateMults s.b ups = .ok (b1, true)) :
+    ∀ k g, (k, g) ∈ s'.b.accs → k.2 ∈ s'.b.validators →
+      osmoTokens s'.b k.1 (sumConn s'.b k s'.b.lastLockId) = .ok (shOf s'.k k / P18) ∧ ROs s' := by
+  have h := epochS_sim hR hI hfit
+  rw [hc] at h
+  cases hl : epoch (absL s) ups with
+  | error e => rw [hl] at h; exact h.elim
+  | ok l' =>
+    rw [hl] at h
+    obtain ⟨h1, h2⟩ := h
+    subst h1
+    obtain ⟨b1, hb1⟩ := hfull
+    have hfull' : ∃ l1, updateMults (absL s) ups = .ok (l1, true) :=
+      ⟨setD (ledgerOf s.k) b1, by rw [show absL s = setD (ledgerOf s.k) s.b from rfl, updateMults_setD, hb1]; rfl⟩
+    intro k g hk hv
+    have := refresh_sets_expected (inv_absL hI) hl hfull' k g hk hv
+    rw [delegated_absL] at this
+    exact ⟨this, h2⟩
+
+/-- transferred `drift_between_epochs_partial` (history-level stake tracking at exchange rate one): after any prefix, a
+full refresh and any epoch-free suffix — all run in the STAKING model — every refreshed account's ledger entry is within
+`1 + (number of stake adjustments since the refresh)` base units of the exact value of the locks delegated through it. -/
+theorem drift_between_epochs_staking_partial {s₀ : SState} (hR : ROs s₀) (h0 : Init' (absL s₀))
+    (pre : List Op) (ups : List (Nat × Int × Int × Bool)) (ops : List Op)
+    (hfit : FitsAlong (absL s₀) (pre ++ .epoch ups :: ops))
+    (l' : State) (hc : epoch (run (absL s₀) pre) ups = .ok l') (hfull : ∃ l1, updateMults (run (absL s₀) pre) ups = .ok (l1, true))
+    (hne : ∀ op, op ∈ ops → isEpoch op = false)
+    (k : AccKey) (g : Nat) (hk : (k, g) ∈ l'.accs) (hv : k.2 ∈ l'.validators) :
+    -((1 + (costs ops : Nat)) * (P18 * P18)) ≤ dev (absL (runS s₀ ((pre ++ .epoch ups :: ops).map OpS.base))) k ∧
+    dev (absL (runS s₀ ((pre ++ .epoch ups :: ops).map OpS.base))) k ≤ (1 + (costs ops : Nat)) * (P18 * P18) := by
+  have hI : Inv s₀.b := by
+    have := init_inv h0.1
+    exact this.ledger_frame s₀.b.deleg s₀.b.supply s₀.b.offset
+  rw [(rate_one_refinement hR hI _ hfit).1]
+  have hrun : run (absL s₀) (pre ++ .epoch ups :: ops) = run l' ops := by
+    unfold run
+    rw [List.foldl_append, List.foldl_cons]
+    congr 1
+    have : applyOp (List.foldl step (absL s₀) pre) (.epoch ups) = .ok l' := by
+      show ((epoch (run (absL s₀) pre) ups).map _).map _ = _
+      rw [hc]; rfl
+    exact step_ok this
+  rw [hrun]
+  exact drift_between_epochs_partial h0 pre ups l' hc hfull ops hne k g hk hv
+
+/-! ### non-vacuity and the room witness -/
+
+theorem wS0_ROs : ROs wS0 := by
+  refine ⟨fun _ => rfl, fun _ => (by decide : (0 : Int) ≤ 1000000), by decide, by decide, ?_, ?_, by decide⟩
+  · intro key d h; cases h
+  · intro v
+    exact shareInvV_of_support [] (fun _ h => by cases h) (fun _ _ => rfl) (by decide : (0 : Int) ≤ 1000000 * P18)
+
+/-- a history at exchange rate one: lock, delegate, an epoch that refreshes. -/
+def rOps : List Op := [.lock 0 0 1 100 true, .delegate 0 1 0, .epoch [(0, 250, 100 * P18, false)]]
+
+theorem wS0_fits : FitsAlong (absL wS0) rOps := by
+  refine ⟨trivial, ?_, ?_, trivial⟩
+  · -- the delegation mints 1
+    intro lk amt hl hos
+    have e : ((step (absL wS0) (.lock 0 0 1 100 true)).locks 1).bind
+        (fun lk => (osmoTokens (step (absL wS0) (.lock 0 0 1 100 true)) lk.denom lk.amount).toOption) = some 1 := by decide +kernel
+    rw [hl] at e
+    simp only [Option.bind_some, hos, Except.toOption] at e
+    injection e with e
+    subst e
+    decide +kernel
+  · -- the refresh: supply 2 000 001, expected 1
+    intro l1 hl1
+    have e : (updateMults (step (step (absL wS0) (.lock 0 0 1 100 true)) (.delegate 0 1 0)) [(0, 250, 100 * P18, false)]).toOption.map
+        (fun r => r.1.supply + expSum r.1 (step (step (absL wS0) (.lock 0 0 1 100 true)) (.delegate 0 1 0)).accs) = some 2000002 := by
+      decide +kernel
+    rw [hl1] at e
+    simp only [Except.toOption, Option.map_some] at e
+    injection e with e
+    rw [e]; decide
+
+/-- the refinement applies to that history, and the abstracted staking run shows the delegation of 1 token. -/
+example : absL (runS wS0 (rOps.map OpS.base)) = run (absL wS0) rOps ∧ ROs (runS wS0 (rOps.map OpS.base)) :=
+  rate_one_refinement wS0_ROs ((init_inv w0_init).ledger_frame _ _ _) rOps wS0_fits
+
+example : (run (absL wS0) rOps).deleg (0, 0) = some 1 ∧ (runS wS0 (rOps.map OpS.base)).k.dsh (0, 0) = some P18 := by
+  decide +kernel
+
+/-- the room is needed: the ledger model has no 256-bit range checks.  A lock of 2²⁵⁰ shares is worth 1.25·2²⁵⁰ uosmo;
+delegating it succeeds in the ledger model, but `SharesFromTokens` multiplies the validator's 10²⁴ raw shares by that
+amount — beyond the `LegacyDec` range — and the staking model's (the code's) `Delegate` fails. -/
+theorem rate_one_refinement_needs_room_witness :
+    errOf (applyOpS (runS wS0 [.base (.lock 0 0 (2 ^ 250) 100 true)]) (.base (.delegate 0 1 0))) = some .other ∧
+    okS (applyOp (absL (runS wS0 [.base (.lock 0 0 (2 ^ 250) 100 true)])) (.delegate 0 1 0)) = true := by
+  decide +kernel
 
 end OsmoVerif.Props.C11Refresh
